@@ -917,6 +917,70 @@ pub open spec fn st_scan(ev: Seq<Ev>, i: int, s: StSt) -> StRes
 pub open spec fn st_part(ev: Seq<Ev>) -> StRes { st_scan(ev, 0, st_init()) }
 pub open spec fn styles_path() -> Seq<char> { "xl/styles.xml"@ }
 
+// ---- witnesses: the walks accept the canonical small documents (non-vacuity of the definitions)
+pub open spec fn ev_tag(kind: EvKind, local: Seq<u8>, ns: Seq<u8>, attrs: Seq<Attr>) -> Ev {
+    Ev { kind: kind, name: local, prefix: None, local: local, ns: ns, attrs: attrs, text: Seq::empty(), text_ok: true }
+}
+pub open spec fn at_ok(key: Seq<u8>, raw: Seq<u8>) -> Attr { Attr { ok: true, key: key, local: key, ns: Seq::empty(), raw: raw } }
+/// <styleSheet><numFmts><numFmt numFmtId="164" formatCode=C/></numFmts><cellXfs><xf numFmtId="164"/><xf numFmtId="14"/><xf/></cellXfs></styleSheet>
+/// declares the style table [class of C, DateTime (built-in 14), Other]
+proof fn witness_st_part(ns: Seq<u8>, c_raw: Seq<u8>, code: Seq<char>)
+    requires is_main_ns(ns), unesc(c_raw) == Some(code), code.len() > 0,
+    ensures ({
+        let id164 = seq![0x31u8, 0x36u8, 0x34u8];
+        let id14 = seq![0x31u8, 0x34u8];
+        let ev = seq![
+            ev_tag(EvKind::Start, n_stylesheet(), ns, Seq::empty()),
+            ev_tag(EvKind::Start, n_numfmts(), ns, Seq::empty()),
+            ev_tag(EvKind::Start, n_numfmt(), ns, seq![at_ok(k_numfmtid(), id164), at_ok(k_formatcode(), c_raw)]),
+            ev_tag(EvKind::End, n_numfmt(), ns, Seq::empty()),
+            ev_tag(EvKind::End, n_numfmts(), ns, Seq::empty()),
+            ev_tag(EvKind::Start, n_cellxfs(), ns, Seq::empty()),
+            ev_tag(EvKind::Start, n_xf(), ns, seq![at_ok(k_numfmtid(), id164)]),
+            ev_tag(EvKind::End, n_xf(), ns, Seq::empty()),
+            ev_tag(EvKind::Start, n_xf(), ns, seq![at_ok(k_numfmtid(), id14)]),
+            ev_tag(EvKind::End, n_xf(), ns, Seq::empty()),
+            ev_tag(EvKind::Start, n_xf(), ns, Seq::empty()),
+            ev_tag(EvKind::End, n_xf(), ns, Seq::empty()),
+            ev_tag(EvKind::End, n_cellxfs(), ns, Seq::empty()),
+            ev_tag(EvKind::End, n_stylesheet(), ns, Seq::empty())];
+        st_part(ev).ok && st_part(ev).xfs == seq![fmt_class(code), CellFormat::DateTime, CellFormat::Other] }),
+{
+    lemma_names_distinct();
+    let id164 = seq![0x31u8, 0x36u8, 0x34u8];
+    let id14 = seq![0x31u8, 0x34u8];
+    let a_id = at_ok(k_numfmtid(), id164);
+    let a_code = at_ok(k_formatcode(), c_raw);
+    let nf = seq![a_id, a_code];
+    // the numFmt element registers (164, code)
+    reveal_with_fuel(nf_fold, 3);
+    assert(nf_fold(nf, 2) == Some(NfAcc { id: id164, code: code }));
+    assert(nf[0].key == k_numfmtid());
+    assert(has_key(nf, k_numfmtid(), 2));
+    let e_nf = ev_tag(EvKind::Start, n_numfmt(), ns, nf);
+    assert(numfmt_entry(e_nf) == Some(NfAcc { id: id164, code: code }));
+    let fm = Map::<Seq<u8>, Seq<char>>::empty().insert(id164, code);
+    // the three xf elements
+    let x1 = seq![at_ok(k_numfmtid(), id164)];
+    let x2 = seq![at_ok(k_numfmtid(), id14)];
+    reveal_with_fuel(ok_key_idx, 2);
+    assert(ok_key_idx(x1, k_numfmtid(), 0) == 0);
+    assert(ok_key_idx(x2, k_numfmtid(), 0) == 0);
+    assert(ok_key_idx(Seq::<Attr>::empty(), k_numfmtid(), 0) == 0);
+    assert(id14 != id164) by { assert(id14.len() != id164.len()); }
+    assert(!fm.contains_key(id14));
+    assert(canon_dec(id14) == Some(14nat)) by {
+        reveal_with_fuel(dec10, 3);
+        assert(id14.drop_last() =~= seq![0x31u8]);
+        assert(seq![0x31u8].drop_last() =~= Seq::<u8>::empty());
+    }
+    assert(xf_entry(ev_tag(EvKind::Start, n_xf(), ns, x1), fm) == Some(fmt_class(code)));
+    assert(xf_entry(ev_tag(EvKind::Start, n_xf(), ns, x2), fm) == Some(CellFormat::DateTime));
+    assert(xf_entry(ev_tag(EvKind::Start, n_xf(), ns, Seq::empty()), fm) == Some(CellFormat::Other));
+    reveal_with_fuel(st_scan, 15);
+    assert(Seq::<CellFormat>::empty().push(fmt_class(code)).push(CellFormat::DateTime).push(CellFormat::Other) =~= seq![fmt_class(code), CellFormat::DateTime, CellFormat::Other]);
+}
+
 //@@ impl src/xlsx/mod.rs Xlsx
 #[verifier::loop_isolation(false)]
 #[verifier::allow_complex_invariants]
@@ -934,10 +998,10 @@ pub open spec fn styles_path() -> Seq<char> { "xl/styles.xml"@ }
         ({ let evs = part_events(content(old(self).zip), styles_path());
            has_part(content(old(self).zip), styles_path()) && evs is Some && st_part(evs->Some_0).ok ==>
                r is Ok && final(self).formats@ == old(self).formats@ + st_part(evs->Some_0).xfs }),
-//@@ replace /Attribute \{\s*key: QName\((b"[^"]*")\),\s*value: v,\s*\}\s*=>/ Verus crashes on byte-string literal patterns: the slice is bound and compared in a guard (same test, same arm order); the literal is kept verbatim
-Attribute { key: QName(__k), value: v } if __k == \g<1> =>
-//@@ replace /a @ Attribute \{\s*key: QName\((b"[^"]*")\),\s*\.\.\s*\}\s*=>/ (same; the binding of the whole attribute is kept)
-a @ Attribute { key: QName(__k), .. } if __k == \g<1> =>
+//@@ replace /(a @ )?Attribute \{\s*key: QName\((b"[^"]*")\),\s*(value: v|\.\.),?\s*\}\s*=>/#0of2 Verus crashes on byte-string literal patterns: the slice is bound and compared in a guard (same test, same arm order); the literal, the other field pattern and a binding of the whole attribute are kept verbatim
+\g<1>Attribute { key: QName(__k), \g<3> } if __k == \g<2> =>
+//@@ replace /(a @ )?Attribute \{\s*key: QName\((b"[^"]*")\),\s*(value: v|\.\.),?\s*\}\s*=>/#1of2 (same)
+\g<1>Attribute { key: QName(__k), \g<3> } if __k == \g<2> =>
 //@@ replace /a\.map_err\((XlsxError::XmlAttr)\)\?/ Verus: "using a datatype constructor as a function value" unsupported; eta-expanded, same function
 a.map_err(|e| -> (x: XlsxError) ensures x == \g<1>(e) { \g<1>(e) })?
 //@@ closure 1
@@ -1844,6 +1908,27 @@ pub open spec fn rl_scan(ev: Seq<Ev>, i: int, s: RlSt) -> RlRes
 pub open spec fn rl_part(ev: Seq<Ev>) -> RlRes { rl_scan(ev, 0, RlSt { root: false, rels: Map::empty() }) }
 pub open spec fn rels_path() -> Seq<char> { "xl/_rels/workbook.xml.rels"@ }
 
+/// <Relationships><Relationship Id=I Target=T/></Relationships> declares the one relationship I -> value of T
+proof fn witness_rl_part(ns: Seq<u8>, id: Seq<u8>, t_raw: Seq<u8>, t: Seq<char>)
+    requires is_pkgrel_ns(ns), unesc(t_raw) == Some(t),
+    ensures ({
+        let ev = seq![
+            ev_tag(EvKind::Start, n_relationships(), ns, Seq::empty()),
+            ev_tag(EvKind::Start, n_relationship(), ns, seq![at_ok(k_id_cap(), id), at_ok(k_target(), t_raw)]),
+            ev_tag(EvKind::End, n_relationship(), ns, Seq::empty()),
+            ev_tag(EvKind::End, n_relationships(), ns, Seq::empty())];
+        rl_part(ev).ok && rl_part(ev).rels == Map::<Seq<u8>, Seq<char>>::empty().insert(id, t) }),
+{
+    lemma_names_distinct();
+    let at = seq![at_ok(k_id_cap(), id), at_ok(k_target(), t_raw)];
+    reveal_with_fuel(rl_fold, 3);
+    assert(rl_fold(at, 2) == Some(RlAcc { id: id, target: t }));
+    assert(at[0].key == k_id_cap() && at[1].key == k_target());
+    assert(has_key(at, k_id_cap(), 2) && has_key(at, k_target(), 2));
+    assert(rel_entry(ev_tag(EvKind::Start, n_relationship(), ns, at)) == Some(RlAcc { id: id, target: t }));
+    reveal_with_fuel(rl_scan, 6);
+}
+
 //@@ impl src/xlsx/mod.rs Xlsx
 #[verifier::loop_isolation(false)]
 #[verifier::allow_complex_invariants]
@@ -1861,10 +1946,10 @@ pub open spec fn rels_path() -> Seq<char> { "xl/_rels/workbook.xml.rels"@ }
         ({ let evs = part_events(content(old(self).zip), rels_path());
            has_part(content(old(self).zip), rels_path()) && evs is Some && rl_part(evs->Some_0).ok ==>
                r is Ok && bk_is((r->Ok_0)@, rl_part(evs->Some_0).rels) }),
-//@@ replace /Attribute \{\s*key: QName\((b"[^"]*")\),\s*value: v,\s*\}\s*=>/ Verus crashes on byte-string literal patterns: the slice is bound and compared in a guard (same test, same arm order); the literal is kept verbatim
-Attribute { key: QName(__k), value: v } if __k == \g<1> =>
-//@@ replace /a @ Attribute \{\s*key: QName\((b"[^"]*")\),\s*\.\.\s*\}\s*=>/ (same; the binding of the whole attribute is kept)
-a @ Attribute { key: QName(__k), .. } if __k == \g<1> =>
+//@@ replace /(a @ )?Attribute \{\s*key: QName\((b"[^"]*")\),\s*(value: v|\.\.),?\s*\}\s*=>/#0of2 Verus crashes on byte-string literal patterns: the slice is bound and compared in a guard (same test, same arm order); the literal, the other field pattern and a binding of the whole attribute are kept verbatim
+\g<1>Attribute { key: QName(__k), \g<3> } if __k == \g<2> =>
+//@@ replace /(a @ )?Attribute \{\s*key: QName\((b"[^"]*")\),\s*(value: v|\.\.),?\s*\}\s*=>/#1of2 (same)
+\g<1>Attribute { key: QName(__k), \g<3> } if __k == \g<2> =>
 //@@ replace /a\.map_err\((XlsxError::XmlAttr)\)\?/ Verus: "using a datatype constructor as a function value" unsupported; eta-expanded, same function
 a.map_err(|e| -> (x: XlsxError) ensures x == \g<1>(e) { \g<1>(e) })?
 //@@ body
@@ -1961,22 +2046,6 @@ pub open spec fn sheet_paths_under_xl(sh: Seq<(String, String)>) -> bool { foral
 proof fn witness_sheet_paths_under_xl()
     ensures sheet_paths_under_xl(Seq::<(String, String)>::empty()),
 {}
-impl<RS: Read + Seek> Xlsx<RS> {
-    // TRUSTED: callee contract of Xlsx::read_table_metadata as proved in unit xlsxwb (clauses C17.load_tables_frame,
-    // C17.tables_loaded_or_unchanged; precondition C16.sheet_paths_under_xl)
-    #[verifier::external_body]
-    fn read_table_metadata(&mut self) -> (r: Result<(), XlsxError>)
-        requires
-            sheet_paths_under_xl(old(self).sheets@),
-        ensures
-            final(self).strings == old(self).strings && final(self).sheets == old(self).sheets && final(self).formats == old(self).formats
-                && final(self).is_1904 == old(self).is_1904 && final(self).metadata == old(self).metadata
-                && final(self).merged_regions == old(self).merged_regions && final(self).options == old(self).options
-                && content(final(self).zip) == content(old(self).zip),
-            r is Ok ==> final(self).tables is Some,
-            r is Err ==> final(self).tables == old(self).tables,
-    { unimplemented!() }
-}
 pub open spec fn refs1(v: Seq<&String>) -> Seq<Seq<char>> { v.map_values(|t: &String| t@) }
 pub type TblEntry = (String, String, Vec<String>, Dimensions);
 /// names of all loaded tables, in load order
@@ -2073,6 +2142,311 @@ proof fn witness_merged_loaded<RS>(x: Xlsx<RS>)
             proof { assert(src.take(src.len() as int) =~= src); }
             __out
         }
+//@@ end
+//@@ endimpl
+
+// =====================================================================================================================
+// C17: table parts (read_table_metadata).  A-std pieces the function needs (same text as in unit xlsxwb)
+// =====================================================================================================================
+// `into_rem`: same device for `vec::IntoIter` (used as loop measure where a `for` loop is desugared by rule R6)
+pub uninterp spec fn into_rem<T>(it: &std::vec::IntoIter<T>) -> Seq<T>;
+#[verifier::external_body]
+pub broadcast proof fn axiom_into_rem<T>(it: &std::vec::IntoIter<T>)
+    ensures #[trigger] into_rem(it) == IteratorSpec::remaining(it) {}
+/// the first n characters of s are ASCII (so byte offset n is the character boundary after n characters)
+pub open spec fn ascii_prefix(s: Seq<char>, n: int) -> bool { 0 <= n <= s.len() && forall|i: int| 0 <= i < n ==> (#[trigger] s[i] as u32) < 128 }
+// TRUSTED: A-std -- string slicing `&s[..]` (the whole string) and `&s[n..]` where the first n characters are ASCII (no panic: byte offset
+// n is a character boundary inside the string; yields the characters after the first n)
+pub uninterp spec fn str_index_post<I: SliceIndex<str>>(s: Seq<char>, i: I, x: &<I as SliceIndex<str>>::Output) -> bool;
+pub assume_specification<I: SliceIndex<str>>[ <str as Index<I>>::index ](s: &str, i: I) -> (x: &<I as SliceIndex<str>>::Output)
+    ensures str_index_post(s@, i, x);
+pub assume_specification<I: SliceIndex<str>>[ <String as Index<I>>::index ](s: &String, i: I) -> (x: &<I as SliceIndex<str>>::Output)
+    ensures str_index_post(s@, i, x);
+pub broadcast axiom fn axiom_str_index_full(s: Seq<char>, x: &str)
+    ensures #[trigger] str_index_post::<RangeFull>(s, RangeFull, x) ==> x@ == s;
+pub broadcast axiom fn axiom_str_index_from(s: Seq<char>, r: RangeFrom<usize>, x: &str)
+    ensures #[trigger] str_index_post::<RangeFrom<usize>>(s, r, x) && ascii_prefix(s, r.start as int) ==> x@ == s.skip(r.start as int);
+pub broadcast axiom fn axiom_string_index_req_full(s: &String)
+    ensures #[trigger] <String as IndexSpec<RangeFull>>::index_req(s, &RangeFull);
+pub broadcast axiom fn axiom_str_index_req_from(s: &str, r: RangeFrom<usize>)
+    ensures ascii_prefix(s@, r.start as int) ==> #[trigger] <str as IndexSpec<RangeFrom<usize>>>::index_req(s, &r);
+// TRUSTED: text -> integer parsing is NOT verified: `str::parse::<u32>` is an uninterpreted function of the text
+#[verifier::external_trait_specification] pub trait ExFromStr: Sized { type ExternalTraitSpecificationFor: std::str::FromStr; type Err; }
+pub uninterp spec fn parse_spec<F: std::str::FromStr>(s: Seq<char>) -> Result<F, <F as std::str::FromStr>::Err>;
+pub assume_specification<F: std::str::FromStr>[ str::parse::<F> ](s: &str) -> (r: Result<F, <F as std::str::FromStr>::Err>)
+    ensures r == parse_spec::<F>(s@);
+// TRUSTED: A-std -- `String::as_bytes` (UTF-8 encoding of the content)
+pub assume_specification[ String::as_bytes ](s: &String) -> (r: &[u8])
+    ensures r@ == vstd::utf8::encode_utf8(s@);
+// TRUSTED: A-std -- `str::rfind(char)`: "Returns the byte index for the first character of the last match of the pattern": a character
+// boundary inside the string (no claim here on which one)
+pub uninterp spec fn pat_occurs<P>(p: P, s: Seq<char>) -> bool;
+pub broadcast axiom fn axiom_pat_occurs_char(c: char, s: Seq<char>)
+    ensures #[trigger] pat_occurs::<char>(c, s) == s.contains(c);
+#[verifier::allow(undeclared_external_trait)]
+pub assume_specification<P: std::str::pattern::Pattern>[ str::rfind ](s: &str, p: P) -> (r: Option<usize>)
+    where for<'a> <P as std::str::pattern::Pattern>::Searcher<'a>: std::str::pattern::ReverseSearcher<'a>
+    ensures
+        r is Some <==> pat_occurs(p, s@),
+        r is Some ==> vstd::utf8::is_char_boundary(vstd::utf8::encode_utf8(s@), r->Some_0 as int);
+// TRUSTED: A-std -- `&s[..n]` at a character boundary does not panic
+pub broadcast axiom fn axiom_str_index_req_to(s: &str, r: std::ops::RangeTo<usize>)
+    ensures vstd::utf8::is_char_boundary(vstd::utf8::encode_utf8(s@), r.end as int) ==> #[trigger] <str as IndexSpec<std::ops::RangeTo<usize>>>::index_req(s, &r);
+// ---------------------------------------------------------------------------------------------------------------------
+// C17: what a table part declares.  ECMA-376 Part 1, 18.5.1.2 table (CT_Table): attributes displayName (required), ref (required,
+// ST_Ref: the whole table including header and totals rows), headerRowCount (xsd:unsignedInt, default 1), insertRow (xsd:boolean,
+// default false), totalsRowCount (xsd:unsignedInt, default 0), ...; children autoFilter?, sortState?, tableColumns, tableStyleInfo?,
+// extLst?.  18.5.1.4 tableColumns = tableColumn+ ; 18.5.1.3 tableColumn: attribute name (required: "the caption of the column"),
+// children calculatedColumnFormula?, totalsRowFormula?, xmlColumnPr?, extLst?.
+// Attribute VALUES are meant (XML references resolved); xsd:boolean is "true" | "false" | "1" | "0".
+// ---------------------------------------------------------------------------------------------------------------------
+#[verifier::opaque] pub open spec fn n_table() -> Seq<u8> { seq![0x74u8, 0x61u8, 0x62u8, 0x6cu8, 0x65u8] }   // table
+#[verifier::opaque] pub open spec fn n_tablecolumn() -> Seq<u8> { seq![0x74u8, 0x61u8, 0x62u8, 0x6cu8, 0x65u8, 0x43u8, 0x6fu8, 0x6cu8, 0x75u8, 0x6du8, 0x6eu8] }   // tableColumn
+#[verifier::opaque] pub open spec fn n_tablecolumns() -> Seq<u8> { seq![0x74u8, 0x61u8, 0x62u8, 0x6cu8, 0x65u8, 0x43u8, 0x6fu8, 0x6cu8, 0x75u8, 0x6du8, 0x6eu8, 0x73u8] }   // tableColumns
+#[verifier::opaque] pub open spec fn k_displayname() -> Seq<u8> { seq![0x64u8, 0x69u8, 0x73u8, 0x70u8, 0x6cu8, 0x61u8, 0x79u8, 0x4eu8, 0x61u8, 0x6du8, 0x65u8] }   // displayName
+#[verifier::opaque] pub open spec fn k_hdrcount() -> Seq<u8> { seq![0x68u8, 0x65u8, 0x61u8, 0x64u8, 0x65u8, 0x72u8, 0x52u8, 0x6fu8, 0x77u8, 0x43u8, 0x6fu8, 0x75u8, 0x6eu8, 0x74u8] }   // headerRowCount
+#[verifier::opaque] pub open spec fn k_insertrow() -> Seq<u8> { seq![0x69u8, 0x6eu8, 0x73u8, 0x65u8, 0x72u8, 0x74u8, 0x52u8, 0x6fu8, 0x77u8] }   // insertRow
+#[verifier::opaque] pub open spec fn k_totcount() -> Seq<u8> { seq![0x74u8, 0x6fu8, 0x74u8, 0x61u8, 0x6cu8, 0x73u8, 0x52u8, 0x6fu8, 0x77u8, 0x43u8, 0x6fu8, 0x75u8, 0x6eu8, 0x74u8] }   // totalsRowCount
+#[verifier::opaque] pub open spec fn k_name() -> Seq<u8> { seq![0x6eu8, 0x61u8, 0x6du8, 0x65u8] }   // name
+pub open spec fn b_zero() -> Seq<u8> { seq![0x30u8] }   // "0"
+// TRUSTED: A-lit (see axiom_bytelits)
+#[verifier::external_body]
+pub proof fn axiom_bytelits_tbl()
+    ensures
+        b"table"@ == n_table(), b"tableColumn"@ == n_tablecolumn(), b"displayName"@ == k_displayname(), b"ref"@ == k_ref(),
+        b"headerRowCount"@ == k_hdrcount(), b"insertRow"@ == k_insertrow(), b"totalsRowCount"@ == k_totcount(), b"name"@ == k_name(),
+        b"0"@ == b_zero(),
+{}
+proof fn lemma_tbl_names_distinct()
+    ensures
+        n_table() != n_tablecolumn(), n_table() != n_tablecolumns(), n_tablecolumn() != n_tablecolumns(),
+        k_displayname() != k_ref(), k_displayname() != k_hdrcount(), k_displayname() != k_insertrow(), k_displayname() != k_totcount(),
+        k_ref() != k_hdrcount(), k_ref() != k_insertrow(), k_ref() != k_totcount(), k_hdrcount() != k_insertrow(), k_hdrcount() != k_totcount(),
+        k_insertrow() != k_totcount(),
+{
+    reveal(n_table); reveal(n_tablecolumn); reveal(n_tablecolumns); reveal(k_displayname); reveal(k_ref); reveal(k_hdrcount); reveal(k_insertrow); reveal(k_totcount);
+    assert(n_table().len() == 5 && n_tablecolumn().len() == 11 && n_tablecolumns().len() == 12);
+    assert(k_displayname().len() == 11 && k_ref().len() == 3 && k_hdrcount().len() == 14 && k_insertrow().len() == 9 && k_totcount().len() == 14);
+    assert(k_hdrcount()[0] != k_totcount()[0]);
+}
+pub ghost struct TbMeta { pub name: Seq<char>, pub refc: Seq<char>, pub hdr: u32, pub ins: bool, pub tot: u32 }
+/// CT_Table defaults: headerRowCount 1, insertRow false, totalsRowCount 0
+pub open spec fn tb_meta0() -> TbMeta { TbMeta { name: Seq::empty(), refc: Seq::empty(), hdr: 1, ins: false, tot: 0 } }
+/// xsd:boolean
+pub open spec fn xsd_bool(v: Seq<char>) -> Option<bool> {
+    if v == "1"@ || v == "true"@ { Some(true) } else if v == "0"@ || v == "false"@ { Some(false) } else { None }
+}
+/// xsd:unsignedInt as far as it fits u32 (the text -> number function itself is not verified: `parse_spec`)
+pub open spec fn xsd_u32(v: Seq<char>) -> Option<u32> { match parse_spec::<u32>(v) { Ok(n) => Some(n), Err(_) => None } }
+/// the attributes of a table element read off its first k attributes; None: malformed attribute / value outside its type
+pub open spec fn tb_fold(attrs: Seq<Attr>, k: int) -> Option<TbMeta>
+    decreases k
+{
+    if k <= 0 { Some(tb_meta0()) }
+    else {
+        match tb_fold(attrs, k - 1) {
+            None => None,
+            Some(m) => {
+                let a = attrs[k - 1];
+                if !a.ok { None }
+                else if a.key == k_displayname() { match unesc(a.raw) { Some(v) => Some(TbMeta { name: v, ..m }), None => None } }
+                else if a.key == k_ref() { match unesc(a.raw) { Some(v) => Some(TbMeta { refc: v, ..m }), None => None } }
+                else if a.key == k_hdrcount() { match unesc(a.raw) { Some(v) => match xsd_u32(v) { Some(n) => Some(TbMeta { hdr: n, ..m }), None => None }, None => None } }
+                else if a.key == k_insertrow() { match unesc(a.raw) { Some(v) => match xsd_bool(v) { Some(b) => Some(TbMeta { ins: b, ..m }), None => None }, None => None } }
+                else if a.key == k_totcount() { match unesc(a.raw) { Some(v) => match xsd_u32(v) { Some(n) => Some(TbMeta { tot: n, ..m }), None => None }, None => None } }
+                else { Some(m) }
+            },
+        }
+    }
+}
+proof fn lemma_tb_fold_prefix(attrs: Seq<Attr>, k: int, n: int)
+    requires 0 <= k <= n, tb_fold(attrs, n) is Some,
+    ensures tb_fold(attrs, k) is Some,
+    decreases n - k,
+{
+    if k < n { lemma_tb_fold_prefix(attrs, k + 1, n); }
+}
+/// the caption a tableColumn element declares; None: malformed attribute, `name` missing or not unescapable
+pub open spec fn col_entry(e: Ev) -> Option<Seq<char>> {
+    if !all_ok(e.attrs) { None }
+    else {
+        let k = ok_key_idx(e.attrs, k_name(), 0);
+        if k >= e.attrs.len() { None } else { unesc(e.attrs[k].raw) }
+    }
+}
+pub enum TbCtx { Top, Cols }
+pub ghost struct TbSt { pub root: bool, pub ctx: TbCtx, pub skip: nat, pub seen_cols: bool, pub meta: TbMeta, pub cols: Seq<Seq<char>> }
+pub enum TbStep { Next(TbSt), Done, Bad }
+pub ghost struct TbRes { pub ok: bool, pub meta: TbMeta, pub cols: Seq<Seq<char>>, pub end: int }
+pub open spec fn tb_init() -> TbSt { TbSt { root: false, ctx: TbCtx::Top, skip: 0, seen_cols: false, meta: tb_meta0(), cols: Seq::empty() } }
+/// an element a name-matching reader would mistake for the table / one of its columns
+pub open spec fn tb_stray(e: Ev) -> bool { e.local == n_table() || e.local == n_tablecolumn() }
+/// the reference of the table decodes (ST_Ref)
+pub open spec fn tb_ref_ok(m: TbMeta) -> bool { dim_of(vstd::utf8::encode_utf8(m.refc)) is Some }
+pub open spec fn tb_step(e: Ev, s: TbSt) -> TbStep {
+    if e.kind is Error { TbStep::Bad }
+    else if !s.root {
+        if e.kind is Start {
+            if is_main(e) && e.local == n_table() {
+                match tb_fold(e.attrs, e.attrs.len() as int) { Some(m) => TbStep::Next(TbSt { root: true, meta: m, ..s }), None => TbStep::Bad }
+            } else { TbStep::Bad }
+        } else if e.kind is End { TbStep::Bad }
+        else { TbStep::Next(s) }
+    } else {
+        match s.ctx {
+            TbCtx::Top =>
+                if s.skip > 0 {
+                    if e.kind is Start { if tb_stray(e) { TbStep::Bad } else { TbStep::Next(TbSt { skip: s.skip + 1, ..s }) } }
+                    else if e.kind is End { if e.local == n_table() { TbStep::Bad } else { TbStep::Next(TbSt { skip: (s.skip - 1) as nat, ..s }) } }
+                    else { TbStep::Next(s) }
+                } else if e.kind is Start {
+                    if is_main(e) && e.local == n_tablecolumns() {
+                        if s.seen_cols { TbStep::Bad } else { TbStep::Next(TbSt { ctx: TbCtx::Cols, seen_cols: true, ..s }) }
+                    } else if tb_stray(e) { TbStep::Bad }
+                    else { TbStep::Next(TbSt { skip: 1, ..s }) }
+                } else if e.kind is End {
+                    if e.local == n_table() { if tb_ref_ok(s.meta) { TbStep::Done } else { TbStep::Bad } } else { TbStep::Bad }
+                } else { TbStep::Next(s) },
+            TbCtx::Cols =>
+                if s.skip > 0 {
+                    if e.kind is Start { if tb_stray(e) { TbStep::Bad } else { TbStep::Next(TbSt { skip: s.skip + 1, ..s }) } }
+                    else if e.kind is End { if e.local == n_table() { TbStep::Bad } else { TbStep::Next(TbSt { skip: (s.skip - 1) as nat, ..s }) } }
+                    else { TbStep::Next(s) }
+                } else if e.kind is Start {
+                    if is_main(e) && e.local == n_tablecolumn() {
+                        match col_entry(e) { Some(c) => TbStep::Next(TbSt { cols: s.cols.push(c), skip: 1, ..s }), None => TbStep::Bad }
+                    } else { TbStep::Bad }
+                } else if e.kind is End {
+                    if e.local == n_tablecolumns() { TbStep::Next(TbSt { ctx: TbCtx::Top, ..s }) } else { TbStep::Bad }
+                } else { TbStep::Next(s) },
+        }
+    }
+}
+pub open spec fn tb_bad(i: int) -> TbRes { TbRes { ok: false, meta: tb_meta0(), cols: Seq::empty(), end: i } }
+pub open spec fn tb_scan(ev: Seq<Ev>, i: int, s: TbSt) -> TbRes
+    decreases ev.len() - i
+{
+    if i < 0 || i >= ev.len() { tb_bad(i) }
+    else {
+        match tb_step(ev[i], s) {
+            TbStep::Next(s2) => tb_scan(ev, i + 1, s2),
+            TbStep::Done => TbRes { ok: true, meta: s.meta, cols: s.cols, end: i },
+            TbStep::Bad => tb_bad(i),
+        }
+    }
+}
+/// what a table part declares
+pub open spec fn tb_part(ev: Seq<Ev>) -> TbRes { tb_scan(ev, 0, tb_init()) }
+pub open spec fn strs(v: Seq<String>) -> Seq<Seq<char>> { v.map_values(|s: String| s@) }
+spec fn meta_is(t: InnerTableMetadata, m: TbMeta) -> bool {
+    t.display_name@ == m.name && t.ref_cells@ == m.refc && t.header_row_count == m.hdr && t.insert_row == m.ins && t.totals_row_count == m.tot
+}
+/// the attribute is one of those whose VALUE the table reader uses as text
+pub open spec fn tb_text_key(key: Seq<u8>) -> bool {
+    key == k_displayname() || key == k_ref() || key == k_hdrcount() || key == k_totcount() || key == k_name()
+}
+/// (hypotheses of the clause that holds for the code as it stands) no text attribute of the table part contains an XML reference, and
+/// insertRow is written "0" or "1" / "true"
+pub open spec fn tb_plain(ev: Seq<Ev>) -> bool {
+    forall|k: int, j: int| 0 <= k < ev.len() && 0 <= j < (#[trigger] ev[k]).attrs.len() ==>
+        (tb_text_key((#[trigger] ev[k].attrs[j]).key) ==> dec(ev[k].attrs[j].raw) == unesc(ev[k].attrs[j].raw))
+        && (ev[k].attrs[j].key == k_insertrow() && unesc(ev[k].attrs[j].raw) is Some && xsd_bool(unesc(ev[k].attrs[j].raw)->Some_0) is Some
+                ==> xsd_bool(unesc(ev[k].attrs[j].raw)->Some_0) == Some(ev[k].attrs[j].raw != b_zero()))
+}
+// rule R4: `format!(..)` (outside Verus) becomes an opaque string -- used for the part names read_table_metadata computes, about which
+// nothing is claimed here
+#[verifier::external_body] fn verif_opaque_string() -> String { String::new() }
+//@@ item src/xlsx/mod.rs struct InnerTableMetadata
+//@@ impl src/xlsx/mod.rs InnerTableMetadata
+//@@ fn src/xlsx/mod.rs InnerTableMetadata::new props=C17 ret=r
+//@@ sig
+    ensures
+        //# C17.table_attribute_defaults
+        r.header_row_count == 1 && r.totals_row_count == 0 && !r.insert_row,
+//@@ end
+//@@ endimpl
+//@@ impl src/xlsx/mod.rs Xlsx
+#[verifier::loop_isolation(false)]
+//@@ fn src/xlsx/mod.rs Xlsx::read_table_metadata props=C17,C06 entry ret=r r4
+//@@ sig
+    requires
+        //# C16.sheet_paths_under_xl  (data invariant of `sheets`, established by read_workbook; not a condition on the file)
+        sheet_paths_under_xl(old(self).sheets@),
+    ensures
+        //# C07.load_tables_frame
+        final(self).strings == old(self).strings && final(self).sheets == old(self).sheets && final(self).formats == old(self).formats
+            && final(self).is_1904 == old(self).is_1904 && final(self).metadata == old(self).metadata
+            && final(self).merged_regions == old(self).merged_regions && final(self).options == old(self).options
+            && content(final(self).zip) == content(old(self).zip),
+        //# C17.tables_loaded_or_unchanged
+        r is Ok ==> final(self).tables is Some,
+        r is Err ==> final(self).tables == old(self).tables,
+//@@ replace /Attribute \{\s*key: QName\((b"[^"]*")\),\s*value: v,\s*\}\s*=>/#0of8 Verus crashes on byte-string literal patterns: the slice is bound and compared in a guard (same test, same arm order); the literal is kept verbatim
+Attribute { key: QName(__k), value: v } if __k == \g<1> =>
+//@@ replace /Attribute \{\s*key: QName\((b"[^"]*")\),\s*value: v,\s*\}\s*=>/#1of8 (same)
+Attribute { key: QName(__k), value: v } if __k == \g<1> =>
+//@@ replace /Attribute \{\s*key: QName\((b"[^"]*")\),\s*value: v,\s*\}\s*=>/#2of8 (same)
+Attribute { key: QName(__k), value: v } if __k == \g<1> =>
+//@@ replace /Attribute \{\s*key: QName\((b"[^"]*")\),\s*value: v,\s*\}\s*=>/#3of8 (same)
+Attribute { key: QName(__k), value: v } if __k == \g<1> =>
+//@@ replace /Attribute \{\s*key: QName\((b"[^"]*")\),\s*value: v,\s*\}\s*=>/#4of8 (same)
+Attribute { key: QName(__k), value: v } if __k == \g<1> =>
+//@@ replace /Attribute \{\s*key: QName\((b"[^"]*")\),\s*value: v,\s*\}\s*=>/#5of8 (same)
+Attribute { key: QName(__k), value: v } if __k == \g<1> =>
+//@@ replace /Attribute \{\s*key: QName\((b"[^"]*")\),\s*value: v,\s*\}\s*=>/#6of8 (same)
+Attribute { key: QName(__k), value: v } if __k == \g<1> =>
+//@@ replace /Attribute \{\s*key: QName\((b"[^"]*")\),\s*value: v,\s*\}\s*=>/#7of8 (same)
+Attribute { key: QName(__k), value: v } if __k == \g<1> =>
+//@@ replace /if let Attribute \{\s*key: QName\((b"[^"]*")\),\s*value: v,\s*\} = a\s*\{([^{}]*)\}/ Verus crashes on byte-string literal patterns: the slice is bound by the `if let` and compared in a nested `if` (same test); literal and body kept verbatim
+if let Attribute { key: QName(__k), value: v } = a { if __k == \g<1> {\g<2>} }
+//@@ replace /a\.map_err\((XlsxError::XmlAttr)\)\?/#0of2 Verus: "using a datatype constructor as a function value" unsupported; eta-expanded, same function
+a.map_err(|e| -> (x: XlsxError) ensures x == \g<1>(e) { \g<1>(e) })?
+//@@ replace /a\.map_err\((XlsxError::XmlAttr)\)\?/#1of2 (same)
+a.map_err(|e| -> (x: XlsxError) ensures x == \g<1>(e) { \g<1>(e) })?
+//@@ body
+        broadcast use {axiom_cow_str_owned, axiom_str_index_req_to, axiom_str_index_req_from, axiom_str_index_from, axiom_pat_chars_str, axiom_iter_rem, axiom_into_rem, axiom_pat_occurs_char};
+        proof { reveal_strlit("xl/"); }
+//@@ r6 0 iter /&self\.sheets/ `<&Vec<T> as IntoIterator>::into_iter` is `iter()` (vstd specifies the latter)
+self.sheets.iter()
+//@@ loop 0
+            invariant
+                forall|j: int| 0 <= j < iter_rem(&__it0).len() ==> is_prefix("xl/"@, (#[trigger] iter_rem(&__it0)[j]).1@),
+                self.strings == old(self).strings && self.sheets == old(self).sheets && self.formats == old(self).formats
+                    && self.is_1904 == old(self).is_1904 && self.metadata == old(self).metadata && self.tables == old(self).tables
+                    && self.merged_regions == old(self).merged_regions && self.options == old(self).options
+                    && content(self.zip) == content(old(self).zip),
+            decreases iter_rem(&__it0).len(),
+//@@ r6 3
+//@@ loop 3
+                invariant
+                self.strings == old(self).strings && self.sheets == old(self).sheets && self.formats == old(self).formats
+                    && self.is_1904 == old(self).is_1904 && self.metadata == old(self).metadata && self.tables == old(self).tables
+                    && self.merged_regions == old(self).merged_regions && self.options == old(self).options
+                    && content(self.zip) == content(old(self).zip),
+                decreases into_rem(&__it3).len(),
+//@@ loop 1
+                    invariant xml.events() == xml.events(),
+                    decreases xml.left(),
+//@@ loop 4
+                    invariant xml.events() == xml.events(),
+                    decreases xml.left(),
+//@@ before /let last_folder_index = /
+            proof {
+                assert(is_prefix("xl/"@, sheet_path@));
+                assert(sheet_path@.subrange(0, 3)[2] == '/');
+                assert(sheet_path@[2] == '/');
+                assert(sheet_path@.contains('/'));
+            }
+//@@ after /let mut dims = get_dimension\([^;]*;/
+                let ghost d0 = dims;
+                let ghost hdr = table_meta.header_row_count as int;
+                let ghost tot = table_meta.totals_row_count as int;
+                let ghost ins: int = if table_meta.insert_row { 1 } else { 0 };
+//@@ before /new_tables\.push\(\(/
+                proof {
+                    //# C17.table_data_range_minus_header_and_totals_rows
+                    assert(dims.start.0 == d0.start.0 + hdr && dims.start.1 == d0.start.1 && dims.end.0 == d0.end.0 - tot - ins && dims.end.1 == d0.end.1);
+                }
 //@@ end
 //@@ endimpl
 
